@@ -38,7 +38,11 @@ def gen_bn(rng, tier, mo, affine, track, rank):
         else:
             N = rng.pick([1, 2, 2, 3, 4, 5])
             shape = (N, C) + rest
-            evs.append(('fwd', shape, [rng.dyadic(-4, 4) if rng.chance(.5) else rng.uniform(-3, 3) for _ in range(int(np.prod(shape)))]))
+            if rng.chance(.15):    # a channel whose level dwarfs its spread (2^26 + k/8: still exact in binary64): variance by cancellation would lose it
+                off = rng.pick([2.0 ** 26, -2.0 ** 26, 2.0 ** 24])
+                evs.append(('fwd', shape, [off + rng.dyadic(-4, 4) for _ in range(int(np.prod(shape)))]))
+            else:
+                evs.append(('fwd', shape, [rng.dyadic(-4, 4) if rng.chance(.5) else rng.uniform(-3, 3) for _ in range(int(np.prod(shape)))]))
     return {'kind': 'bn', 'C': C, 'mo': mo, 'eps': rng.pick([1e-5, 1e-3, 0.5]), 'affine': affine, 'track': track, 'evs': evs}
 
 
